@@ -311,7 +311,9 @@ func (st *rstate) node(w *strings.Builder, n gen.Node) (ctl, Status) {
 			return ctlNone, s
 		}
 		if c != ctlNone {
-			return ctlNone, Unsp
+			// a break or continue that is not inside a loop of the included template itself: rendering that
+			// file's content directly fails, so the include must fail (C14)
+			return ctlNone, Err
 		}
 		w.WriteString(sb.String())
 	case gen.Raw:
